@@ -76,12 +76,24 @@ use wax::{Any, Program};
 pub enum Pat {
     G(Glob<'static>),
     A(Any<'static>),
+    /// a glob whose *queries* were read from the borrowed value (its token tree is the parser's;
+    /// the owned value's tree has been rebuilt) — both share one compiled program, so matching
+    /// through the owned value is matching of the borrowed one
+    B(Glob<'static>, BorrowedQueries),
+}
+
+pub struct BorrowedQueries {
+    pub text: TextVariance<'static>,
+    pub depth: DepthVariance,
+    pub root: When,
+    pub exhaustive: When,
+    pub semantic_literals: bool,
 }
 
 impl Pat {
     pub fn is_match(&self, p: &str) -> bool {
         match self {
-            Pat::G(g) => g.is_match(p),
+            Pat::G(g) | Pat::B(g, _) => g.is_match(p),
             Pat::A(a) => a.is_match(p),
         }
     }
@@ -89,28 +101,46 @@ impl Pat {
         match self {
             Pat::G(g) => g.depth(),
             Pat::A(a) => a.depth(),
+            Pat::B(_, q) => q.depth,
         }
     }
     pub fn text(&self) -> TextVariance<'static> {
         match self {
             Pat::G(g) => g.text(),
             Pat::A(a) => a.text(),
+            Pat::B(_, q) => q.text.clone(),
         }
     }
     pub fn has_root(&self) -> When {
         match self {
             Pat::G(g) => g.has_root(),
             Pat::A(a) => a.has_root(),
+            Pat::B(_, q) => q.root,
         }
     }
     pub fn is_exhaustive(&self) -> When {
         match self {
             Pat::G(g) => g.is_exhaustive(),
             Pat::A(a) => a.is_exhaustive(),
+            Pat::B(_, q) => q.exhaustive,
         }
     }
     pub fn is_any(&self) -> bool {
         matches!(self, Pat::A(_))
+    }
+    /// the glob, if the pattern is one
+    pub fn glob(&self) -> Option<&Glob<'static>> {
+        match self {
+            Pat::G(g) | Pat::B(g, _) => Some(g),
+            Pat::A(_) => None,
+        }
+    }
+    pub fn has_semantic_literals(&self) -> Option<bool> {
+        match self {
+            Pat::G(g) => Some(g.has_semantic_literals()),
+            Pat::B(_, q) => Some(q.semantic_literals),
+            Pat::A(_) => None,
+        }
     }
 }
 
@@ -164,10 +194,30 @@ pub fn build_pat(exprs: &[Expr]) -> Result<Option<(String, Pat)>, String> {
     }
     let texts: Vec<String> = exprs.iter().map(render_text).collect();
     if texts.len() == 1 {
-        return Ok(match build(&texts[0])? {
-            Ok(g) => Some((texts[0].clone(), Pat::G(g))),
-            Err(_) => None,
-        });
+        let text = &texts[0];
+        let g = match build(text)? {
+            Ok(g) => g,
+            Err(_) => return Ok(None),
+        };
+        // half of the globs answer their queries from the borrowed value (a pure function of the
+        // text decides which)
+        let borrowed = text.bytes().fold(7u32, |a, b| a.wrapping_mul(131).wrapping_add(b as u32)) % 2 == 1;
+        if borrowed {
+            let q = guard(|| {
+                Glob::new(text).ok().map(|b| BorrowedQueries {
+                    text: match b.text() {
+                        TextVariance::Invariant(c) => TextVariance::Invariant(std::borrow::Cow::Owned(c.into_owned())),
+                        TextVariance::Variant(()) => TextVariance::Variant(()),
+                    },
+                    depth: b.depth(),
+                    root: b.has_root(),
+                    exhaustive: b.is_exhaustive(),
+                    semantic_literals: b.has_semantic_literals(),
+                })
+            })?;
+            return Ok(q.map(|q| (text.clone(), Pat::B(g, q))));
+        }
+        return Ok(Some((text.clone(), Pat::G(g))));
     }
     let mut gs = Vec::new();
     for t in &texts {
